@@ -145,7 +145,7 @@ Definition c15_event (nd : N) (before : gobs) (ev : gevent) : bool :=
   let after := ge_obs ev in
   routes_spec_ok after &&
   match ge_op ev with
-  | GUpdate o _ _ =>
+  | GUpdate o _ _ _ =>
       if og_err (ge_out ev) =? 0
       then upd_pools_ok nd before after o (og_dials (ge_out ev)) && upd_mes_ok after o && synced_ok after
       else true
@@ -190,7 +190,7 @@ Definition expected_err (before : gobs) (o : gopts) (fails : list N) : Z :=
 Definition c16_event (first : bool) (before : gobs) (ev : gevent) : bool :=
   let after := ge_obs ev in
   match ge_op ev with
-  | GUpdate o fails _ =>
+  | GUpdate o fails _ _ =>
       ((check_opts o =? 4) || (og_err (ge_out ev) =? expected_err before o fails)) &&
       (if og_err (ge_out ev) =? 0 then routes_live after
        else (* a rejected update changes nothing; a failed construction leaves nothing *)
@@ -261,10 +261,10 @@ Definition gaccept (tr : list gevent) : option (nat * gclass) :=
   match tr with
   | ev :: r =>
       match ge_op ev with
-      | GUpdate o fails oracle =>
+      | GUpdate o fails oracle readys =>
           if check_opts o =? 4 then Some (O, DBadOp)
           else
-          let '(s1, out) := gupdate (ginit o) o fails oracle in
+          let '(s1, out) := gupdate (ginit o) o fails oracle readys in
           match gdiff false (gobserve s1) out (ge_obs ev) (ge_out ev) with
           | Some c => Some (O, c)
           | None => if og_err out =? 0 then gaccept_from s1 1%nat r
